@@ -37,10 +37,24 @@ def gen(rng, tier):
     from e2_world import world as W
     from e2_world import catalog as C
     lc = rng.random() < 0.12
+    bigspec = None
+    if rng.random() < 0.02:
+        # a large catalogue (carried as its generator call): "round" row totals and their neighbours
+        T = 16
+        tot = rng.choice([4096, 4097, 4095, 8192, 8193, 4096 + T * rng.randrange(1, 20), 4096 + T * rng.randrange(1, 20) + 1])
+        first = rng.choice([tot, tot - 1, tot // 2, rng.randrange(1, tot)])
+        counts = [first] + ([tot - first] if tot - first else [])
+        bigspec = {'gen': {'seed': rng.randrange(1 << 30), 'kwargs': {'halo_counts': counts, 'max_parts': 1,
+                                                                      'want_clean': rng.random() < 0.5}}}
+        lc = False
     big = tier == 'thorough' and rng.random() < 0.5
     world = W.gen_world(rng, lc=lc, max_slabs=6 if big else 4, max_halos=12 if big else 6, max_parts=8 if big else 4)
+    if bigspec:
+        world = W.materialize(bigspec)
     inds = [s['index'] for s in world['slabs']]
     kind = rng.choice(['zdir', 'zdir', 'halo_info', 'file', 'list', 'list'])
+    if bigspec:
+        kind = rng.choice(['zdir', 'list'])
     order = list(inds)
     if kind == 'file':
         order = [rng.choice(inds)]
@@ -64,9 +78,13 @@ def gen(rng, tier):
         ab = ['A']
         cols = rng.choice([['pos', 'vel', 'pid'], ['pid'], ['pos'], ['rv']])
         sub = rng.choice([{k: True for k in ['A'] + cols}, {k: True for k in ['A', 'B'] + cols}, True])
+    if bigspec:
+        cleaned_flag = world['cleaned']
+        world = bigspec
+        world['cleaned_hint'] = cleaned_flag
     return {'world': world, 'knobs': C.gen_knobs(rng),
             'path': {'kind': kind, 'order': order, 'slash': rng.random() < 0.3, 'as_path': rng.random() < 0.5},
-            'cleaned': bool(world['cleaned'] and rng.random() < 0.75) or lc, 'subsamples': sub, 'AB': ab,
+            'cleaned': bool(world.get('cleaned', world.get('cleaned_hint')) and rng.random() < 0.75) or lc, 'subsamples': sub, 'AB': ab,
             'unpack_bits': unpack, 'passthrough': passthrough,
             'fields': 'all' if passthrough else rng.choice(['DEFAULT_FIELDS', 'all', 'all']),
             'explicit_cleandir': rng.random() < 0.25, 'zdir_as_path': rng.random() < 0.5}
@@ -76,8 +94,11 @@ def run(case):
     from e2_world import world as W
     from e2_world import catalog as C
     out = new_outcome()
-    world = case['world']
+    world = W.materialize(case['world'])
     knobs = case['knobs']
+    if 'gen' in case['world']:
+        knobs = dict(knobs, prelude_seed=None, compression=None if knobs.get('cbs', 0) < 1024 else knobs.get('compression'))
+        bump(out['probes'], 'large-catalogue')
     with C.scratch() as root:
         gd, written = W.write_world(world, root, knobs)
         C.prelude(world, knobs, root, out['faults'])
@@ -149,6 +170,8 @@ def run(case):
 def shrink(case):
     c = copy.deepcopy(case)
     w = case['world']
+    if 'gen' in w:
+        w = {'slabs': []}      # generator-call worlds are shrunk through their options only
     # drop a slab
     if len(w['slabs']) > 1:
         for i, s in enumerate(w['slabs']):
